@@ -352,7 +352,7 @@ class C14(Check):
     # 16 cores are shared; the soft time cap keeps the tiers inside 3 / 20 minutes either way
     EXAMPLES = {"quick": 120, "thorough": 3000}
     MIN_EVALS = {"quick": 500, "thorough": 8000}
-    TIME_CAP = {"quick": 140, "thorough": 1050}
+    TIME_CAP = {"quick": 140, "thorough": 1000}
     LEVEL_TEXT = ("Generated-input search with an independent table oracle: node exactness of B, mu, Rs/Rv against the "
                   "numbers written into the deck (own unit table), bracketing inside every 1-D table segment, "
                   "continuity of undersaturated functions on the saturated line (at and between nodes), inversion "
